@@ -132,3 +132,37 @@ PROPS["C17"] = {
             "quick = a stratified ninth (by seed), thorough = all; distinct = distinct cells",
     "assumptions": REQ_ASSUME,
 }
+
+FLOW_MC_Q = [mc("MCFlow", "MCFlow_quick.cfg", workers=8),
+             mc("MCFlow", "MCFlow_HolderNotConverted.cfg", workers=4, expect_violation="HolderMatches"),
+             mc("MCFlow", "MCFlow_DespiteNoFraming.cfg", workers=4, expect_violation="Refines"),
+             mc("MCFlow", "MCFlow_ReasonCap4.cfg", workers=4, expect_violation="NotPanicked")]
+FLOW_MC_T = [mc("MCFlow", "MCFlow_thorough.cfg", workers=16, timeout=3000, heap="16g")]
+FLOW_ASSUME = ["conventions of the API respected by the drivers: try_read_100 only while can_keep_await_100(); try_response not called again after the final response; as_new_flow at most once",
+               "partial heads offered to flows stop before the end of the first field line (later cut points are C05's subject, incl. known finding KF1)"]
+PROPS["C09"] = {
+    "driver": "c09", "trace_spec": "TraceFlow", "scripts": "flow",
+    "mc_quick": FLOW_MC_Q, "mc_thorough": FLOW_MC_T,
+    "require_kinds": ["call"],
+    "rule": "one case = one flow history: a model edge-cover script (every transition of MCFlow, each followed by further calls in the target state) or a seeded random history "
+            "over the full menu (9 methods, both versions, Expect, despite-method, request framings, interim 100 / refusals / late 100, every body framing, redirects, premature advance in a random state); "
+            "distinct = distinct scripts / (method, version, expect, framing, early message, status class, premature step)",
+    "assumptions": FLOW_ASSUME,
+}
+PROPS["C10"] = {
+    "driver": "c10", "trace_spec": "TraceFlow",
+    "mc_quick": FLOW_MC_Q[:1] + FLOW_MC_Q[3:], "mc_thorough": FLOW_MC_T,
+    "require_classes": ["verdict:redirect", "verdict:cleanup", "c10:refusal"],
+    "rule": "one case = one combination of request version x request Connection {absent, close, keep-alive, both} x method x Expect outcome {none, 100, timeout, late 100, refused bare / with fields / with Connection: close} "
+            "x response version x status {200,204,302,304,403} x framing x response Connection {absent, close, keep-alive, both}, driven to Cleanup with the verdict read in Redirect and Cleanup; "
+            "quick = a seeded eleventh, thorough = all; distinct = distinct combinations",
+    "assumptions": FLOW_ASSUME,
+}
+PROPS["C11"] = {
+    "driver": "c11", "trace_spec": "TraceFlow",
+    "mc_quick": FLOW_MC_Q[:2], "mc_thorough": FLOW_MC_T,
+    "require_classes": ["c11:inStatusLine", "c11:afterStatusLine", "c11:bare100", "c11:bareOther", "c11:otherInFields", "c11:otherFieldLine", "c11:otherComplete", "c11:late100", "c11:completed"],
+    "rule": "one case = one interim/final server head (100 with 4 reason variants, refusals bare / with fields / with Connection: close) x the prefix length at which the caller stops looking (every length, cumulatively re-presented) "
+            "x HTTP/1.0 / 1.1 x request framing, continued to Cleanup on whichever path the flow takes; distinct = distinct (message, variant, version, give-up point)",
+    "assumptions": FLOW_ASSUME,
+}
